@@ -1421,6 +1421,7 @@ struct ssl
     int32 msn;                                  /* Current Message Sequence Number to send */
     int32 resendMsn;                            /* Starting MSN to use for resends */
     int32 lastMsn;                              /* Last MSN successfully parsed from peer */
+    int32 flightLastMsn;                        /* lastMsn at the time our current flight was first encoded */
     int32 pmtu;                                 /* path maximum trasmission unit */
     int32 retransmit;                           /* Flag to know not to update handshake hash */
     uint16 flightDone;                          /* BOOL to flag when entire hs flight sent */
